@@ -149,7 +149,7 @@ def canon_dev(dev, AC):
             tuple((dev.name or "").encode()), tuple((dev.sn or "").encode()))
 
 
-def run_impl(dgrams, timeout=5.0, packets=3, target="255.255.255.255"):
+def run_impl(dgrams, timeout=5.0, packets=3, target="255.255.255.255", auto_connect=False):
     """dgrams: [(time_ms, host, port, data)] -> (status, sorted devices, probes [(port, data, target)], socket options)"""
     import msmart.discover as DM
     from msmart.device import AirConditioner as AC
@@ -159,7 +159,7 @@ def run_impl(dgrams, timeout=5.0, packets=3, target="255.255.255.255"):
     DM.Discover._lock = None
     status, devs = 0, []
     try:
-        devs = net.run(DM.Discover.discover(target=target, timeout=timeout, discovery_packets=packets, auto_connect=False))
+        devs = net.run(DM.Discover.discover(target=target, timeout=timeout, discovery_packets=packets, auto_connect=auto_connect))
     except BaseException as e:  # noqa: BLE001
         status = exn_code(e)
     probes = [(addr[1], data, addr[0]) for ep in net.endpoints for data, addr, _ in ep.sent]
@@ -193,16 +193,16 @@ def decode_model(st, outs):
     return st, sorted(devs), [c for c in codes if c > 0]
 
 
-def compare(ctx, rep, cases, tag="discover"):
+def compare(ctx, rep, cases, tag="discover", auto_connect=False):
     """cases: list of datagram lists. Returns [(impl, model)]"""
     mo = ctx.model.batch([model_case(c) for c in cases])
     res = []
     for c, (st, outs) in zip(cases, mo):
-        im = run_impl(c)
+        im = run_impl(c, auto_connect=auto_connect)
         mst, mdevs, merrs = decode_model(st, outs)
         res.append((im, (mst, mdevs, merrs)))
         ok = (im[0] == 0 and mst == 0 and im[1] == mdevs) or (im[0] != 0 and mst != 0 and im[0] in merrs)
         if not ok:
-            rep.fail("corr", tag, {"dgrams": [(t, h, p, bytes(d).hex()) for t, h, p, d in c]},
+            rep.fail("corr", tag, {"dgrams": [(t, h, p, bytes(d).hex()) for t, h, p, d in c], "auto_connect": auto_connect},
                      {"impl": [im[0], im[1]], "model": [mst, mdevs, merrs]})
     return res
